@@ -2,13 +2,16 @@
 # offline setup: syntax-check all specifications, run the exact-arithmetic self test and a smoke trace
 set -e
 cd "$(dirname "$0")/spec"
-for f in Exact LoopDist LoopTrace LoopSem LinRec LinRecFamily ExpLattice Dists BayesNet FuncMoment Session ExactTest; do
+for f in Exact LoopDist LoopTrace LoopSem LinRec LinRecFamily ExpLattice Dists BayesNet FuncMoment Session Worklist ProgSpace Pipeline ExactTest; do
   java -cp /opt/veriftools/tla/tla2tools.jar:/opt/veriftools/tla/CommunityModules-deps.jar tla2sany.SANY $f.tla > /tmp/sany_$f.log 2>&1 || { cat /tmp/sany_$f.log; exit 1; }
   grep -q "Semantic errors\|Parsing or semantic analysis failed\|\*\*\* Errors" /tmp/sany_$f.log && { cat /tmp/sany_$f.log; exit 1; }
 done
 M=$(mktemp -d)
 java -XX:+UseParallelGC -cp /opt/veriftools/tla/tla2tools.jar:/opt/veriftools/tla/CommunityModules-deps.jar tlc2.TLC -workers 8 -metadir $M -noGenerateSpecTE ExactTest.tla > $M/log 2>&1 || { tail -30 $M/log; rm -rf $M; exit 1; }
 grep -q "No error has been found" $M/log || { tail -30 $M/log; rm -rf $M; exit 1; }
+echo '{"mode":"model","traces":[]}' > $M/b.json
+BATCH_FILE=$M/b.json OUT_DIR=$M java -cp /opt/veriftools/tla/tla2tools.jar:/opt/veriftools/tla/CommunityModules-deps.jar tlc2.TLC -workers 4 -metadir $M/pl -noGenerateSpecTE -config Pipeline.cfg Pipeline.tla > $M/log2 2>&1 || { tail -30 $M/log2; rm -rf $M; exit 1; }
+grep -q "No error has been found" $M/log2 || { tail -30 $M/log2; rm -rf $M; exit 1; }
 rm -rf $M
 cd ..
 /venv/bin/python tests/smoke_looptrace.py > /tmp/smoke.log 2>&1 || { cat /tmp/smoke.log; exit 1; }
